@@ -178,6 +178,17 @@ def c17_4(ctx):
     _refcheck(ctx, "MessageSigner.msg_magic_for_netcode", "ms_magic", "magic")
     _refcheck(ctx, "MessageSigner.sign_message", "ms_sign_message", "sign-pipeline")
     _refcheck(ctx, "MessageSigner.parse_sections", "ms_parse_sections", "armour-sections")
+    # the armour is split at "\n" (after DOS line ends were folded): str.splitlines() also breaks at \x0b \x0c \x1c-\x1e \x85
+    # U+2028 U+2029 and a bare \r, which are legal inside the signed message and would come back as newlines
+    n_sites = 0
+    for fn in ("MessageSigner.parse_sections", "MessageSigner.parse_signed_message"):
+        g = ctx.func(MSG, fn)
+        for c in ast.walk(g.node):
+            if isinstance(c, ast.Call) and isinstance(c.func, ast.Attribute):
+                n_sites += 1
+                ctx.check(c.func.attr != "splitlines", "armour-line-breaks:%s" % fn.split(".")[-1], ctx.where(g, c),
+                          "%s breaks the text with str.splitlines(), which also splits at \\x0b, \\x0c, \\x1c-\\x1e, \\x85, U+2028, U+2029 and a bare \\r: a message containing one of them does not parse back to itself"
+                          % fn, what="line-breaks:%s:%d" % (fn.split(".")[-1], n_sites))
     _refcheck(ctx, "MessageSigner.parse_signed_message", "ms_parse_signed_message", "armour-header")
 
 
